@@ -21,7 +21,9 @@ PB_POOL = ["DTSTART:garbage", "DTSTART:2024", "DTSTART:20241301T000000", "DTSTAR
            # multi-valued lines in which only a LATER item is bad: the whole line is dropped, nothing of it stays behind
            "FREEBUSY:20240101T000000Z/PT1H,garbage", "FREEBUSY:20240101T000000Z/PT1H,20240102T000000Z/PT1H,x/y",
            "RDATE:20240101T000000,garbage", "EXDATE;VALUE=DATE:20240101,2024", "RDATE;VALUE=PERIOD:20240101T000000Z/PT1H,x/y"]
-J_POOL = ["NOCOLONHERE", ":novalue", "A B:x", "X;:v", "X;P:v", 'X;P="a:v', "=:x", "X;P=a\x01b:v", "Ünï code:x" if False else "A,B:x"]
+J_POOL = ["NOCOLONHERE", ":novalue", "A B:x", "X;:v", "X;P:v", 'X;P="a:v', "=:x", "X;P=a\x01b:v", "Ünï code:x" if False else "A,B:x",
+          # lines made of white space that is not SP/HTAB-only-at-line-start (a fold): they are junk like any other junk
+          "\x0c", "\x1f", "\u00a0", "\u2003\u3000", "\x0b \x0c"]
 
 
 def kind(name):
